@@ -222,3 +222,77 @@ def root_here_env(workdir: str) -> bool:
         return ok
     finally:
         undo()
+
+
+MARK = "  # wd="
+
+
+def label_roundtrip(c: str, w1: str, w2: str, marked: bool) -> bool:
+    """The step label carries the working directory; the director reads it back with
+    Step.command_and_workdir.  For every command (without the marker) and every workdir -- also
+    one whose name contains the marker text -- the pair is recovered exactly."""
+    import stepup.core.step as st
+
+    workdir = w1 + (MARK if marked else "") + w2
+    if workdir == "":
+        return True
+    saved = st.Path
+    st.Path = lambda p: p
+    try:
+        try:
+            label = st.Step.adjust_label(c, workdir)
+        except ValueError:
+            return MARK in c
+        if MARK in c:
+            return False
+        step = st.Step(None, 1, label)
+        cmd, wd = step.command_and_workdir
+        return cmd == c and wd == workdir
+    finally:
+        st.Path = saved
+
+
+class _RecClient:
+    def __init__(self):
+        self.sent = []
+        self.call = self
+
+    def amend_step(self, job_i, inp, env, out, vol, _rpc_timeout=None):
+        self.sent.append((set(_s(x) for x in inp), set(_s(x) for x in out), set(_s(x) for x in vol)))
+        return True
+
+
+def amend_sequence(p1: str, p2: str, here_i: int) -> bool:
+    """Two successive amend(inp=...) calls by a step: every path the step announced reaches the
+    director (now or in an earlier call) as the root-relative path designating the same file --
+    the client-side de-duplication never swallows a path that was not sent before."""
+    import contextlib
+
+    import stepup.core.api as api
+
+    if M.isabs(p1) or M.isabs(p2) or p1 == "" or p2 == "" or p1.endswith("/") or p2.endswith("/"):
+        return True
+    undo, cwd = _setup(here_i)
+    client = _RecClient()
+    saved = (api.get_rpc_client, api.get_job_i, api.subs_env_vars, api._check_no_directories, api._check_inp_paths, api._AMEND_HISTORY)
+
+    @contextlib.contextmanager
+    def no_subs():
+        yield lambda p: p
+
+    api.get_rpc_client = lambda path=None: client
+    api.get_job_i = lambda: 1
+    api.subs_env_vars = no_subs
+    api._check_no_directories = lambda paths, workdir=".": None
+    api._check_inp_paths = lambda paths: ([], [])
+    api._AMEND_HISTORY = {"inp": set(), "env": set(), "out": set(), "vol": set()}
+    try:
+        api.amend(inp=[p1])
+        api.amend(inp=[p2])
+        recorded = set()
+        for inp, out, vol in client.sent:
+            recorded |= {_denote(ROOT, t) for t in inp}
+        return _denote(cwd, p1) in recorded and _denote(cwd, p2) in recorded
+    finally:
+        (api.get_rpc_client, api.get_job_i, api.subs_env_vars, api._check_no_directories, api._check_inp_paths, api._AMEND_HISTORY) = saved
+        undo()
